@@ -249,6 +249,11 @@ func (e *Explorer) done(alts []workItem) {
 func (e *Explorer) worker(id int) {
 	i := e.newInterpreter()
 	defer i.slv.close()
+	defer func() {
+		if debugSched {
+			fmt.Fprintf(os.Stderr, "max call depth seen: %d\n", maxDepthSeen)
+		}
+	}()
 	defer e.collectFuncs(i) // the functions of the target executed by this worker (evidence: functions encoded)
 	for {
 		it, ok := e.next()
